@@ -7,6 +7,10 @@ BASE = json.load(open("/root/.vp/BASELINE.json"))["cmd"] if Path("/root/.vp/BASE
     "cd /repo && /venv/bin/python -m pytest -ra -q -p no:cacheprovider --timeout=900 --continue-on-collection-errors --junitxml=<file>"
 
 CHECKS = {
+ "C14": dict(cat="exploration", ref="§C14",
+    tech="bounded-exhaustive enumeration of operation histories + Hypothesis rule-based state machine (stateful testing); oracle = differential against freshly constructed context/parser/serializer instances after every step",
+    text="All histories of length <= 2 (thorough: <= 3) over a pool of ~45 parse/serialize/encode/decode operations on colliding models, plus random histories of up to 30 steps from a rule-based state machine; after every step the outcome on the shared instances (value or exception type) must equal that of fresh instances. Exhaustive for the short histories, searched for the long ones.",
+    note="The operation pool is fixed (hand-built colliding models and documents); fresh and shared instances see the same loaded classes."),
  "C11": dict(cat="exploration", ref="§C11",
     tech="bounded-exhaustive enumeration of small XML trees + property-based testing (Hypothesis) of larger ones; oracles = reference AnyElement image from an independent libxml2 parse, canonical-infoset round trip through both writers, reference model of the wildcard namespace keywords",
     text="All trees with 1 node (full alphabet), 2 nodes (medium) and 3 nodes (reduced) plus generated trees up to depth 6 are parsed by TreeParser and inside typed models with single/list/mixed/choice wildcards under every namespace constraint, by both handlers; the bound generic tree must equal the documented image, serialization must reproduce the input infoset, and admissibility must follow the namespace keyword semantics. Exhaustive for the enumerated sub-domains, searched elsewhere.",
